@@ -58,7 +58,7 @@ func valText(v any) string {
 			}
 			return "0.0"
 		}
-		return "2.5"
+		return gen.FloatText(x)
 	case string:
 		return fmt.Sprintf("%q", x)
 	case []any:
@@ -85,7 +85,9 @@ var addVals = []any{nil, true, int64(5), 2.5, 0.0, math.Copysign(0, -1), "s", "2
 	// lists of plain strings: invalid UTF-8, the line and paragraph separators (what an encoder escapes or replaces)
 	[]any{"a\xffb", "x"}, []any{"l\u2028s", "p\u2029"}, []any{"\xf0\x9f", "ok", ""}, []any{"plain", "strings"}, "NaN", "-Infinity", "1e999", "12abc",
 	// whole numbers that a detour through float64 would round: as a tag they are their decimal text, digit for digit
-	int64(1)<<53 + 1, int64(1700000000123456789), int64(math.MaxInt64), int64(-math.MaxInt64)}
+	int64(1)<<53 + 1, int64(1700000000123456789), int64(math.MaxInt64), int64(-math.MaxInt64),
+	// further floats: as tag text each is its own text, whatever float became a tag before or after it
+	0.125, 12.5}
 
 func allOps() []op {
 	var out []op
@@ -352,7 +354,7 @@ type snapshot struct {
 func snap(p *input.Point) snapshot {
 	s := snapshot{map[string]string{}, map[string]any{}}
 	for k, v := range p.Tags {
-		s.tags[k] = v
+		s.tags[k] = strings.Clone(v) // a copy of the bytes: the snapshot must not change when the point's own text does
 	}
 	for k, v := range p.Fields {
 		s.fields[k] = v
@@ -452,6 +454,16 @@ func applyObs(t rk.Failer, p *input.Point, o op, observe bool) string {
 			if present(after, o.K) {
 				return fmt.Sprintf("%s: the key was not deleted", o.Text)
 			}
+		}
+	}
+	// the keys the operation does not name keep their values (the builtins with side keys - message, pl_msg, the scratch
+	// key of the grok operations - excepted): the text of a tag is its own, not a view of something the next write reuses
+	for k, was := range before.tags {
+		if k == o.K || k == o.K2 || k == "message" || k == "pl_msg" || k == "src_g" || k == "_" {
+			continue
+		}
+		if now, ok := p.Tags[k]; ok && now != was {
+			return fmt.Sprintf("%s changed the tag %q, which it does not name: it held %q and now holds %q", o.Text, k, was, now)
 		}
 	}
 	if !observe {
